@@ -1,4 +1,5 @@
 import WfModel.Replay
+import WfModel.TickStream
 import Driver.Engine
 /-! Line protocol for the restart model (`WfModel/Replay.lean`); every op of the `engine`
 driver is accepted too (same parsers/printers, same state), so a resumed runner can be driven on.
@@ -10,6 +11,7 @@ driver is accepted too (same parsers/printers, same state), so a resumed runner 
     restart <now0> <now> <nowR> <start ev|_> <timeout|_> <policy> <n> <tick>*n   one handler of _on_server_start
     pick <registered> <active> <resuming runs> <rows>   which handlers _on_server_start acts on
     persist <tick>                                  what is read back from the store for a processed tick
+    stream <page> <n> <sequence>*n                  what SqliteWorkflowStore.stream_ticks yields for a run with these rows
 -/
 open Engine
 
@@ -107,6 +109,11 @@ def step (d : RState) (line : String) : RState × String :=
   | "persist" :: ts =>
     match tick ts with
     | some (t, []) => (d, sTick t.persist)
+    | _ => (d, "bad-op")
+  | "stream" :: ts =>
+    match (do let page ← nat; let rows ← counted nat; pure (page, rows)) ts with
+    | some ((page, rows), []) =>
+      if page == 0 then (d, "bad-op") else (d, sList toString (TickStream.streamTicks page rows))
     | _ => (d, "bad-op")
   | "pick" :: ts =>
     match (do let reg ← counted nat; let act ← counted nat; let res ← counted nat; let rows ← counted rowP
